@@ -123,12 +123,12 @@ Section Pipeline.
 
   Definition str_node (v : string) : node := Scalar TStr SPlain v.
 
-  (* RNode.LoadMapIntoConfigMapData / LoadMapIntoSecretData: sorted keys; nothing at all for an empty map *)
+  (* RNode.LoadMapIntoConfigMapData / LoadMapIntoSecretData: sorted keys *)
   Definition data_field (secret : bool) (m : Generators.dict) : list (string * node) :=
-    match m with
-    | [] => []
-    | _ => [("data", Map (map (fun kv => (fst kv, str_node (if secret then Hash.encode_base64 (snd kv) else snd kv))) m))]
-    end.
+    match m, secret with
+    | [], false => []          (* ConfigMap: the field is only created by the first entry *)
+    | _, _ => [("data", Map (map (fun kv => (fst kv, str_node (if secret then Hash.encode_base64 (snd kv) else snd kv))) m))]
+    end.                       (* Secret: LookupCreate(MappingNode, data) comes first: `data: {}` for no entry *)
 
   Definition meta_map_field (name : string) (l : pairs) : list (string * node) :=
     match l with
@@ -144,8 +144,8 @@ Section Pipeline.
     if negb secret && negb (forallb (fun kv => Hash.valid_utf8 (snd kv)) m) then Err (* binaryData: out of scope *) else
     let labels := if pg_has_opts g then pg_labels g else [] in
     let annos := if pg_has_opts g then pg_annos g else [] in
-    let meta := ([("name", Scalar TNone SPlain (pg_name g))] ++
-                 (if String.eqb (pg_ns g) "" then [] else [("namespace", Scalar TNone SPlain (pg_ns g))]) ++
+    let meta := ([("name", str_node (pg_name g))] ++
+                 (if String.eqb (pg_ns g) "" then [] else [("namespace", str_node (pg_ns g))]) ++
                  meta_map_field "labels" labels ++ meta_map_field "annotations" annos)%list in
     Ok (Map ([("apiVersion", str_node "v1"); ("kind", str_node (if secret then "Secret" else "ConfigMap"));
               ("metadata", Map meta)] ++
